@@ -73,8 +73,10 @@ def _work(job):
             for attr in (False, True):
                 n += 1
                 r = run_one(s, comp, attr)
-                if r[0] not in ('ok', 'DecoderError') and len(bad) < 4:
-                    bad.append({'clause': 'C08:total', 'detail': repr(r),
+                kind = r[:2]
+                # capped per kind of escape so that a recorded class can never crowd out a new one
+                if r[0] not in ('ok', 'DecoderError') and sum(1 for b in bad if b['kind'] == kind) < 2:
+                    bad.append({'clause': 'C08:total', 'detail': repr(r), 'kind': kind,
                                 'input': {'selfies': s if len(s) < 2000 else s[:200] + '...(%d chars)' % len(s),
                                           'generator': None, 'compatible': comp, 'attribute': attr}})
                 if r[0] == 'DecoderError':
